@@ -260,7 +260,35 @@ async def prog_upload(flavor, p):
     return info
 
 
-PROGS = {"upload": prog_upload, "nested": prog_nested, "response": prog_response, "fault": prog_fault, "history": prog_history, "handover": prog_handover,
+async def prog_goaway(flavor, p):
+    """Three sequential requests on an HTTP/2 connection that the server shuts down with GOAWAY at a scripted point:
+    outcome per call, what reached the origin per call (heads, body lengths), connections opened."""
+    from . import c14
+    from ..scenarios import Sc
+    from ..world import guarded
+    from .. import runners
+    sc = Sc("h2", flavor, max_connections=3, resp_delay=0.0)
+    script = {"data_chunk": 1000, "actions": [{"when": (p["when"], p["n"]), "do": "goaway", "last": p["last"]}]}
+    for o in sc.origins:
+        o.h2_script = dict(script)
+    sc.net.op_budget = 12000
+    outs = {}
+
+    async def body():
+        for i in range(3):
+            try:
+                outs[f"c{i}"] = runners.Outcome("ok", await c14.one_call(sc, p["shape"], f"c{i}"))
+            except Exception as exc:  # noqa
+                outs[f"c{i}"] = runners.Outcome("exc", exc=exc)
+        return True
+    run = await guarded(flavor, body)
+    wire = {tok: [[bytes(r.method).decode(), len(r.body), bool(r.complete)] for r in reqs] for tok, reqs in sorted(c14.heads_by_token(sc).items())}
+    n_tr = len(sc.net.transports)
+    await guarded(flavor, sc.api.close_pool)
+    return {"out": [run.kind, {k: norm_outcome(o) for k, o in sorted(outs.items())}], "wire": wire, "transports": n_tr}
+
+
+PROGS = {"goaway": prog_goaway, "upload": prog_upload, "nested": prog_nested, "response": prog_response, "fault": prog_fault, "history": prog_history, "handover": prog_handover,
          "proxy": prog_proxy, "mutated": prog_mutated}
 
 
@@ -395,6 +423,10 @@ def run_realsock(case):
     return {"viol": viol, "counters": cnt, "sigs": sorted(sigs), "sample": None}
 
 
+ASYNC_ONLY_NAMES = {"__anext__", "__aiter__", "__aenter__", "__aexit__", "aclose", "aread", "aiter_stream", "await", "async",
+                    "AsyncIterator", "AsyncIterable", "handle_async_request", "anext", "aiter"}
+
+
 def run_aux(case):
     """Auxiliary, NOT runtime monitoring: regenerate _sync from _async with scripts/unasync.py and require byte equality."""
     viol = []
@@ -423,6 +455,16 @@ def run_aux(case):
                              "what": f"httpcore/_sync/{f} differs from the unasync translation of httpcore/_async/{f} at line "
                                      f"{d[0] + 1 if d else '?'}: expected {d[1]!r}, found {d[2]!r}" if d else "length differs",
                              "detail": {"file": f}})
+            # names that exist only in the asynchronous world must not survive the translation - neither as identifiers
+            # nor inside string literals (hasattr(x, "__anext__") is always False for a synchronous iterator)
+            import io
+            import tokenize
+            for tok in tokenize.generate_tokens(io.StringIO(have.decode("utf8")).readline):
+                cnt["aux_tokens_checked"] = cnt.get("aux_tokens_checked", 0) + 1
+                text = tok.string.strip("\"'") if tok.type == tokenize.STRING else tok.string
+                if tok.type in (tokenize.NAME, tokenize.STRING) and text in ASYNC_ONLY_NAMES:
+                    viol.append({"key": f"aux:async-only-name-in-sync-twin:{text}",
+                                 "what": f"httpcore/_sync/{f} line {tok.start[0]}: {tok.line.strip()!r}", "detail": {"file": f}})
     return {"viol": viol, "counters": cnt, "sigs": [], "sample": None}
 
 
@@ -475,6 +517,11 @@ def plan(tier, seed):
         for after in (0, 5, 64):
             for cut in (None, 10, 40, 60):
                 progs.append(["handover", {"kind": kind, "status": st, "after": after, "cut": cut, "sizes": r.choice([[65536], [1], [3, 7]])}])
+    for shape in ("get", "post-bytes", "post-iter", "post-once"):
+        for when in ("head", "end"):
+            for n in (0, 1, 2):
+                for last in ((0, "prev", "this") if q else (0, "prev", "this", 2 ** 31 - 1)):
+                    progs.append(["goaway", {"shape": shape, "when": when, "n": n, "last": last}])
     for i in range(60 if q else 500):
         progs.append(["proxy", {"case": c11.gen_case(r)}])
     for i in range(40 if q else 400):
